@@ -50,9 +50,17 @@ pub fn cells(tier: Tier) -> Vec<CellPlan> {
         EvOp::World(Op::Despawn(0)),
         EvOp::EmitS(SK::E1, Mode::Broadcast, None),
         EvOp::EmitC(0, CK::C1, None),
+        EvOp::EmitCStale(0),
     ];
     c.rounds = if q { 3 } else { 4 };
-    v.push(plan(c, if q { 1 } else { 2 }, 3.0));
+    v.push(plan(c.clone(), if q { 1 } else { 2 }, 3.0));
+
+    // The same with the connection status and the incoming messages applied inside the client's
+    // frame (in `ClientSet::ReceivePackets`), as a messaging backend does.
+    let mut cb = c.clone();
+    cb.name = "c09-reconnect-backend".into();
+    cb.cfg.backend_style = true;
+    v.push(plan(cb, if q { 1 } else { 2 }, 2.0));
 
     // Server stop / start at every point.
     let mut c = base("restart", 1);
@@ -100,6 +108,7 @@ pub fn cells(tier: Tier) -> Vec<CellPlan> {
         EvOp::World(Op::Rm(0, TB)),
         EvOp::EmitS(SK::E1, Mode::Broadcast, None),
         EvOp::EmitS(SK::E1, Mode::Direct(0), None),
+        EvOp::DisconnectAfterSend(0),
     ];
     c.rounds = if q { 3 } else { 4 };
     v.push(plan(c, 1, 2.0));
@@ -205,6 +214,13 @@ pub fn cells(tier: Tier) -> Vec<CellPlan> {
         c.init = vec![Op::Spawn(0, 1 << TA)];
         c.rounds = if q { 6 } else { 7 };
         c.closure_rounds = 6;
+        if !stop {
+            let mut cb = c.clone();
+            cb.name = format!("c09-{name}-backend");
+            cb.cfg.backend_style = true;
+            cb.rounds = if q { 5 } else { 6 };
+            v.push(plan(cb, 0, 2.0));
+        }
         v.push(plan(c, if q { 0 } else { 1 }, 3.0));
     }
     v
